@@ -243,7 +243,7 @@ def run_case(case, cnt=None, root=None, idset=None):
                             now = fh.read()
                     except OSError:
                         now = None
-                    if now != content and not (sel.startswith("make-bad-dir") and p in ("mk.bin", "out/mk.raw", "mk.wav")):
+                    if now != content and not ((sel.startswith("make-bad-dir") or case.get("big_image")) and p in ("mk.bin", "out/mk.raw", "mk.wav")):
                         viol(f"{label}: failed run destroyed the pre-existing output {p}")
             else:
                 cnt["successful_runs_checked_for_outputs"] += 1
